@@ -40,7 +40,7 @@
 //!   Z <serial> <rounds> <concurrent> <mode>   end-to-end (the channel inside the driver, between the metadata worker
 //!       and the cluster worker): a real Session on a mocknode cluster; every round adds a node to the mock
 //!       cluster and issues <concurrent> Session::refresh_metadata calls at once.
-//!       mode 1: the consumer (cluster worker) is kept busy by a slow address translator while 3..5 refreshes are
+//!       mode 1: the consumer (cluster worker) is kept busy by a slow address translator while four staged refreshes are
 //!       served back to back, so that several full fetches with response channels are merged in the slot.
 //!       mode 3: like mode 1, but Session::use_keyspace calls alternate with the refreshes (the select loop of the
 //!       cluster worker: both request kinds queue up while an update is applied; each must be answered once).
@@ -870,7 +870,7 @@ fn main() {
     let z_cases: u64 = if thorough { 36 } else { 21 };
     for k in 0..z_cases {
         serial += 1;
-        // k = 1 mod 3: busy-consumer scenario (mode 1) with 3..5 staged refreshes per round;
+        // k = 1 mod 3: busy-consumer scenario (mode 1) with four staged refreshes per round;
         // k = 2 mod 3: failing fetches (mode 2)
         let c = if k % 3 == 1 {
             format!("Z {:x} {:x} {:x} 1", serial, 1 + k % 2, 3 + k % 3)
